@@ -38,7 +38,8 @@ Inductive event :=
 | ESnap (ts : list tsnap) (ks : list ksnap)
 | EMeta (topics : list (N * list N))                    (* contents of nsqd.dat *)
 | EView (tf cf : option N) (v : list lts)               (* /stats under filters / in text form, right after a snapshot *)
-| ERestart.                                             (* graceful Exit, new daemon on the same data path *)
+| ERestart                                              (* graceful Exit, new daemon on the same data path *)
+| EHung.                                                (* the daemon (or a request to it) stopped answering: the case was abandoned here *)
 
 (* [hidden]: consumers whose counters are not compared (used by the forced-interleaving
    scenarios to look BEYOND a known finding that corrupts exactly those counters);
@@ -154,6 +155,7 @@ Definition replay_step_h (hid : list N) (cf : config) (s : state) (pend : option
   | ESnap ts ks => if snap_agrees_h hid s ts ks then Some (s, pend) else None
   | EMeta m => if meta_agrees s m then Some (s, pend) else None
   | EView _ _ _ => Some (s, pend)
+  | EHung => Some (s, None)
   | ERestart => Some (restart s, pend)
   end.
 Definition replay_step := replay_step_h [].
@@ -718,6 +720,10 @@ Fixpoint mon_run (g : ledger) (prev : option event) (after_restart : bool) (evs 
           mon_run (mon_snap g ts ks) None false rest
       | EMeta m => mon_run (mon_meta g m) prev after_restart rest
       | EView tf cf v => mon_run (mon_view g tf cf v) prev after_restart rest
+      | EHung =>
+          (* a daemon that stops answering delivers nothing more (C01, C03), cannot be shut
+             down gracefully (C05) and has deadlocked on whatever was in progress (C08) *)
+          mon_run (flag 1 false (flag 3 false (flag 5 false (flag 8 false g)))) prev after_restart rest
       | ERestart => mon_run (mon_restart g) None true rest
       end
   end.
